@@ -45,10 +45,10 @@ def make_state(rng, spec):
     meta = {}
     if spec.get("meta"):
         meta = {"name": "sat", "tags": ["a", "b"], "nested": {"k": [1, 2], "s": "x"}, "arr": np.arange(3.0)}
-    sv = StateVector(spec["kep"], date, "keplerian", "EME2000", **meta)
+    sv = StateVector(spec["kep"], date, "keplerian", "Hill" if spec["frame"] == "Hill" else "EME2000", **meta)
     if spec["form"] != "keplerian":
         sv.form = spec["form"]
-    if spec["frame"] != "EME2000":
+    if spec["frame"] not in ("EME2000", "Hill"):
         sv.frame = spec["frame"]
         sv._data.pop("cov", None)
     if spec.get("orbit"):
@@ -463,3 +463,499 @@ def replay(f):
         check_roundtrip_types(out, rng, i["spec"])
     out.failures = [x for x in out.failures if x["family"] == fam] or out.failures
     return out
+
+
+# ---------------------------------------------------------------- tables regenerated from the live package
+
+def _lstr(s):
+    return '"' + s.replace("\\", "\\\\").replace('"', '\\"') + '"'
+
+
+def live_tables():
+    """name / alias tables of beyond.orbits.forms, the frame registry and the property names of the classes, from live objects"""
+    from beyond.orbits import forms, StateVector, Orbit
+    from beyond.frames import frames
+    form_keys = [(k, v.name) for k, v in forms._cache.items()]
+    seen = []
+    for _, v in forms._cache.items():
+        if v.name not in [n for n, _ in seen]:
+            seen.append((v.name, list(v.param_names)))
+    alt = list(forms.Form.alt.items())
+    cache = sorted(forms._cache_param_names)
+    props = sorted({n for cls in (StateVector, Orbit) for n in dir(cls) if isinstance(getattr(cls, n, None), property)})
+    reg, hill = [], []
+    for k, fr in frames.dynamic.items():
+        if type(fr) is frames.Frame and fr.center is frames.center.Earth and type(fr.orientation).__name__ != "LocalOrbitalOrientation":
+            reg.append((k, fr.name))
+        elif isinstance(fr, frames.HillFrame):
+            hill.append(k)
+    reg = [kv for kv in reg if kv[1] in {n for _, n in reg if _ == n}]   # keys of built-in frames only
+    return {"form_keys": form_keys, "param_names": seen, "alt": alt, "cache": cache, "props": props,
+            "frame_keys": sorted(kv for kv in reg if kv[0] in frames.__all__ or kv[0] == kv[1] and kv[0] in FRAMES + ["GCRF", "CIRF", "TIRF", "G50", "WGS84"]),
+            "hill_keys": sorted(hill)}
+
+
+def extract(ctx):
+    t = live_tables()
+    ctx.tables = t
+    # the same tables read from the source text (AST) as a self-check of the live extraction
+    import ast
+    src = open(os.path.join(core.REPO, "beyond", "orbits", "forms.py")).read()
+    tree = ast.parse(src)
+    ast_names = {}
+    for node in ast.walk(tree):
+        if isinstance(node, ast.Assign) and isinstance(node.value, ast.Call) and getattr(node.value.func, "id", None) == "Form":
+            ast_names[ast.literal_eval(node.value.args[0])] = ast.literal_eval(node.value.args[1])
+    if ast_names != dict(t["param_names"]):
+        raise RuntimeError(f"live Form.param_names differ from the Form(...) literals in forms.py: {ast_names} vs {t['param_names']}")
+
+    def pairs(xs):
+        return "[" + ", ".join(f"({_lstr(a)}, {_lstr(b)})" for a, b in xs) + "]"
+    out = ["/- GENERATED by harness/props/C15.py from the live objects of beyond.orbits.forms / beyond.frames.frames — do not edit -/",
+           "namespace BeyondVerif.Generated.FormTables",
+           "/-- `forms._cache`: accepted form name ↦ name of the Form object -/",
+           f"def formKeys : List (String × String) := {pairs(t['form_keys'])}",
+           "/-- `Form.param_names` of every Form object -/",
+           "def paramNames : List (String × List String) := [" + ", ".join(f"({_lstr(n)}, [" + ", ".join(map(_lstr, ps)) + "])" for n, ps in t["param_names"]) + "]",
+           "/-- `Form.alt`: alias ↦ element name -/",
+           f"def alt : List (String × String) := {pairs(t['alt'])}",
+           "/-- `forms._cache_param_names` (sorted) -/",
+           "def cacheParamNames : List String := [" + ", ".join(map(_lstr, t["cache"])) + "]",
+           "/-- names that are properties of StateVector / Orbit (handled by their setters, not by the name tables) -/",
+           "def propertyNames : List String := [" + ", ".join(map(_lstr, t["props"])) + "]",
+           "/-- built-in Earth-centred frames: registry key ↦ `Frame.name` -/",
+           f"def frameKeys : List (String × String) := {pairs(t['frame_keys'])}",
+           "def hillKeys : List String := [" + ", ".join(map(_lstr, t["hill_keys"])) + "]",
+           "end BeyondVerif.Generated.FormTables"]
+    ch = core.write_if_changed(os.path.join(core.LEAN, "BeyondVerif", "Generated", "FormTables.lean"), "\n".join(out) + "\n")
+    return ["Generated/FormTables.lean"] if ch else []
+
+
+# ---------------------------------------------------------------- correspondence: real objects vs the heap model
+
+STR_TOK = {"sat": 1, "a": 2, "b": 3, "x": 6}
+ERR_KINDS = [("UnknownFormError", "unknown-form"), ("UnknownFrameError", "unknown-frame"), ("RuntimeError", "runtime"),
+             ("ValueError", "value"), ("TypeError", "type"), ("AttributeError", "attr"), ("KeyError", "attr")]
+
+
+def err_kind(e):
+    for cls in type(e).__mro__:
+        for name, kind in ERR_KINDS:
+            if cls.__name__ == name:
+                return kind
+    return "other:" + type(e).__name__
+
+
+class Real:
+    """runs the operations of one request line on real objects and dumps them like Drv/C15.lean does"""
+
+    def __init__(self):
+        self.vars = []
+        self.init = {}      # k -> bytes of the initial coordinate / covariance values
+        self.dates = {}     # k -> Date
+        self.datekey = {}
+
+    def new(self, k, orbit, form, frame, meta, nmans, cov, covframe):
+        import numpy as np
+        spec = {"kep": self.kep[k], "form": form, "frame": frame, "orbit": orbit, "cov": False, "mans": nmans, "meta": meta, "dt": 60 * k}
+        sv = make_state(None, spec)
+        self.init[k] = np.asarray(sv).tobytes()
+        self.dates[k] = sv._data["date"]
+        self.datekey[(sv._data["date"]._d, sv._data["date"]._s)] = 100 + k
+        self.vars.append(sv)
+        if cov:
+            self.setcov(len(self.vars) - 1, 1000 + k)
+            if covframe != "-":
+                sv.cov.frame = covframe
+
+    def setcov(self, i, k):
+        import numpy as np
+        from beyond.orbits.cov import Cov
+        sv = self.vars[i]
+        vals = np.diag([1.0e4, 2.0e4, 3.0e4, 1.0e-2, 2.0e-2, 3.0e-2]) * (1 + (k % 7))
+        vals[0, 1] = vals[1, 0] = 12.5
+        self.init[k] = np.array(vals).tobytes()
+        sv.cov = Cov(sv, vals, sv.frame)
+
+    def run(self, op):
+        from beyond.propagators.kepler import Kepler
+        from beyond.orbits.man import ImpulsiveMan
+        v = self.vars
+        name, a = op[0], op[1:]
+        try:
+            if name == "new":
+                self.new(int(a[0]), a[1] == "1", a[2], a[3], a[4] == "1", int(a[5]), a[6] == "1", a[7])
+            elif name == "copy":
+                v.append(v[int(a[0])].copy())
+            elif name == "copyf":
+                v.append(v[int(a[0])].copy(form=a[1]))
+            elif name == "copyfr":
+                v.append(v[int(a[0])].copy(frame=a[1]))
+            elif name == "aso":
+                v.append(v[int(a[0])].as_orbit(Kepler()))
+            elif name == "assv":
+                v.append(v[int(a[0])].as_statevector())
+            elif name == "setf":
+                v[int(a[0])].form = a[1]
+            elif name == "setfr":
+                v[int(a[0])].frame = a[1]
+            elif name == "seta":
+                if int(a[2]) % 2:
+                    setattr(v[int(a[0])], a[1], int(a[2]))
+                else:
+                    v[int(a[0])][a[1]] = int(a[2])
+            elif name == "seti":
+                v[int(a[0])][int(a[1])] = int(a[2])
+            elif name == "covfr":
+                v[int(a[0])].cov.frame = a[1]
+            elif name == "addman":
+                sv = v[int(a[0])]
+                sv.maneuvers.append(ImpulsiveMan(sv._data["date"], [1.0, 0.0, 0.0], comment=f"m{a[1]}"))
+            elif name == "setcov":
+                self.setcov(int(a[0]), int(a[1]))
+            elif name == "pickle":
+                v.append(pickle.loads(pickle.dumps(v[int(a[0])])))
+            else:
+                return "bad-op"
+            return "ok"
+        except Exception as e:
+            return err_kind(e)
+
+    def dump(self):
+        """(structure string with '$' for buffer contents, list of buffer contents, list of problems)"""
+        import numpy as np
+        from beyond.orbits import StateVector, Orbit
+        from beyond.orbits.cov import Cov
+        from beyond.orbits.man import Man
+        from beyond.orbits.forms import Form
+        from beyond.frames.frames import Frame
+        from beyond.dates import Date
+        from beyond.propagators.base import Propagator
+        seen, vals, problems, keep = {}, [], [], []
+
+        def ident(key, obj):
+            keep.append(obj)
+            if key in seen:
+                return None, f"#{seen[key]}"
+            seen[key] = sum(1 for v in seen.values() if v >= 0)
+            return seen[key], None
+
+        def ref(x):
+            if x is None:
+                return "~"
+            if isinstance(x, bool):
+                return f"t{int(x)}"
+            if isinstance(x, int):
+                return f"t{x}"
+            if isinstance(x, str):
+                return f"t{STR_TOK.get(x, 999)}"
+            if isinstance(x, Date):
+                return f"t{self.datekey.get((x._d, x._s), 998)}"
+            if isinstance(x, Form):
+                return f"f:{x.name}"
+            if isinstance(x, Frame):
+                return f"F:{'Hill' if type(x).__name__ == 'HillFrame' else x.name}"
+            if isinstance(x, StateVector):
+                i, back = ident(id(x), x)
+                if back:
+                    return back
+                owned = x.base is None
+                if owned:
+                    bi, bback = ident(("own", id(x)), x)
+                else:
+                    if type(x.base) is not np.ndarray or x.base.shape != (6,):
+                        problems.append(f"unexpected base {type(x.base).__name__}")
+                    bi, bback = ident(id(x.base), x.base)
+                if bback:
+                    sb = bback
+                else:
+                    sb = f"B{bi}=<$>"
+                    vals.append(np.asarray(x).tobytes())
+                return f"S{i}({'O' if isinstance(x, Orbit) else 'V'},{int(owned)},{sb},{ref(x._data)})"
+            if isinstance(x, Cov):
+                i, back = ident(id(x), x)
+                if back:
+                    return back
+                dd = x.__dict__.get("_data")
+                if dd is None:
+                    vals.append(np.asarray(x).tobytes())
+                    return f"C{i}(!,<$>)"
+                for part in (x.base, dd):
+                    if id(part) in seen or ("covpart", id(part)) in seen:
+                        problems.append("a covariance shares its buffer / dict with another object")
+                    seen[("covpart", id(part))] = -1
+                    keep.append(part)
+                vals.append(np.asarray(x).tobytes())
+                fr = dd["frame"]
+                of = x.__dict__.get("_orb_frame")
+                frs = fr if isinstance(fr, str) else ref(fr)[2:]
+                return f"C{i}(<$>,{frs},{ref(of)[2:]},{ref(dd['orb'])})"
+            if isinstance(x, Man):
+                i, back = ident(id(x), x)
+                return back or f"M{i}={x.comment[1:]}"
+            if isinstance(x, Propagator):
+                i, back = ident(id(x), x)
+                return back or f"P{i}"
+            if isinstance(x, np.ndarray):
+                i, back = ident(id(x), x)
+                return back or f"A{i}={7 if x.tobytes() == np.arange(3.0).tobytes() else 0}"
+            if isinstance(x, list):
+                i, back = ident(id(x), x)
+                return back or f"L{i}[" + ",".join(ref(y) for y in x) + "]"
+            if isinstance(x, dict):
+                i, back = ident(id(x), x)
+                if back:
+                    return back
+                items = [(k, y) for k, y in sorted(x.items()) if not (k == "cov" and y is None) and not (k == "maneuvers" and isinstance(y, list) and not y)]
+                return f"D{i}{{" + ",".join(f"{k}={ref(y)}" for k, y in items) + "}"
+            return f"?{type(x).__name__}"
+        s = " ".join(ref(x) for x in self.vars)
+        for k in list(seen):
+            if isinstance(k, tuple) and k[0] == "covpart":
+                del seen[k]
+        return s, vals, problems
+
+
+def parse_val(s):
+    """'c(f,g,i0)' -> ('c', 'f', 'g', ('i', 0))"""
+    pos = 0
+
+    def term():
+        nonlocal pos
+        j = pos
+        while pos < len(s) and s[pos] not in "(),":
+            pos += 1
+        head = s[j:pos]
+        if pos < len(s) and s[pos] == "(":
+            args = []
+            pos += 1
+            while True:
+                args.append(term())
+                if s[pos] == ",":
+                    pos += 1
+                else:
+                    pos += 1   # ')'
+                    break
+            return (head,) + tuple(args)
+        return head
+    return term()
+
+
+class Evaluator:
+    """evaluates a symbolic value of the model with the pure conversion functions of the library"""
+
+    def __init__(self, real):
+        self.real = real
+        self.cache = {}
+
+    def date_of(self, t):
+        if isinstance(t, str):
+            return self.real.dates.get(int(t[1:])) if t.startswith("i") else None
+        return self.date_of(t[-1])
+
+    def ev(self, t):
+        import numpy as np
+        from beyond.orbits import StateVector
+        from beyond.orbits.forms import get_form
+        from beyond.frames.frames import get_frame
+        key = repr(t)
+        if key in self.cache:
+            return self.cache[key]
+        res = None
+        if isinstance(t, str):
+            if t.startswith("i"):
+                res = self.real.init.get(int(t[1:]))
+        elif t[0] == "c":
+            v = self.ev(t[3])
+            if v is not None:
+                tmp = StateVector(np.frombuffer(v), self.date_of(t), t[1], "EME2000")
+                res = np.array(get_form(t[1])(tmp, t[2]), dtype=float).tobytes()
+        elif t[0] == "x":
+            v = self.ev(t[3])
+            if v is not None:
+                tmp = StateVector(np.frombuffer(v), self.date_of(t), "cartesian", t[1])
+                res = np.array(get_frame(t[1]).transform(tmp, get_frame(t[2])), dtype=float).tobytes()
+        elif t[0] == "s":
+            v = self.ev(t[4])
+            if v is not None:
+                arr = np.frombuffer(v).copy()
+                arr[int(t[2])] = float(int(t[3]))
+                res = arr.tobytes()
+        self.cache[key] = res
+        return res
+
+
+import re
+_VAL = re.compile(r"<([^<>]*)>")
+
+
+def run_case(ops, kep):
+    """returns (list of per-op (status, struct, vals, problems)) from the real code"""
+    real = Real()
+    real.kep = kep
+    res = []
+    for op in ops:
+        status = real.run(op)
+        s, vals, problems = real.dump()
+        res.append((status, s, vals, problems))
+    return real, res
+
+
+def compare_case(ops, kep, reply):
+    """None when model and implementation agree, else (what, observed, expected)"""
+    real, res = run_case(ops, kep)
+    parts = reply.split(" || ")
+    if len(parts) != len(ops):
+        return ("model refused the request", reply[:200], None)
+    evl = Evaluator(real)
+    bits = {}
+    for n, (op, (status, s, vals, problems), part) in enumerate(zip(ops, res, parts)):
+        mstatus, _, mdump = part.partition(" ")
+        if problems:
+            return (f"op {n} {' '.join(op)}: {problems[0]}", problems, None)
+        if mstatus != status:
+            return (f"op {n} {' '.join(op)}: outcome differs", status, mstatus)
+        mvals = _VAL.findall(mdump)
+        mstruct = _VAL.sub("<$>", mdump)
+        if mstruct != s:
+            return (f"op {n} {' '.join(op)}: object graph (structure / sharing / labels) differs", s, mstruct)
+        if len(mvals) != len(vals):
+            return (f"op {n}: number of buffers differs", len(vals), len(mvals))
+        for expr, b in zip(mvals, vals):
+            if bits.setdefault(expr, b) != b:
+                return (f"op {n} {' '.join(op)}: two buffers with the same model value {expr} hold different numbers", None, expr)
+            want = evl.ev(parse_val(expr))
+            if want is not None and want != b:
+                import numpy as np
+                return (f"op {n} {' '.join(op)}: buffer content differs from the pure evaluation of {expr}",
+                        list(map(float, np.frombuffer(b))), list(map(float, np.frombuffer(want))))
+    return None
+
+
+SET_NAMES = ["x", "vz", "a", "e", "i", "raan", "Omega", "Ω", "omega", "nu", "ν", "theta", "θ", "r", "M", "ex", "aol", "alpha", "l", "n",
+             "label", "note", "r_dot", "theta_dot", "phi"]
+
+
+def rand_ops(rng, maxlen=6):
+    ops = []
+    nvars = 0
+    nnew = rng.choice([1, 1, 2])
+    for k in range(nnew):
+        ops.append(["new", str(k), str(int(rng.random() < 0.4)), rng.choice(FORMS), rng.choice(FRAMES + ["Hill"] * (rng.random() < 0.1)),
+                    str(int(rng.random() < 0.6)), str(rng.choice([0, 0, 1, 2])), str(int(rng.random() < 0.5)), rng.choice(["-", "-", "TNW", "QSW", "ITRF"])])
+        nvars += 1
+    est = nvars   # upper bound of the number of variables; the model and the code agree on failures, so indices stay valid on both sides
+    for _ in range(rng.randint(1, maxlen)):
+        i = str(rng.randrange(est))
+        r = rng.random()
+        form = rng.choice(FORMS + ["circular", "mean", "no_such_form"] if rng.random() < 0.2 else FORMS)
+        frame = rng.choice(FRAMES + ["WGS84", "NoSuchFrame", "Hill"] if rng.random() < 0.3 else FRAMES)
+        if r < 0.14:
+            op = ["copy", i]
+        elif r < 0.24:
+            op = ["copyf", i, form]
+        elif r < 0.36:
+            op = ["copyfr", i, frame]
+        elif r < 0.44:
+            op = ["aso", i]
+        elif r < 0.50:
+            op = ["assv", i]
+        elif r < 0.58:
+            op = ["setf", i, form]
+        elif r < 0.70:
+            op = ["setfr", i, frame]
+        elif r < 0.76:
+            op = ["seta", i, rng.choice(SET_NAMES), str(rng.randrange(10, 90))]
+        elif r < 0.80:
+            op = ["seti", i, str(rng.randrange(6)), str(rng.randrange(10, 90))]
+        elif r < 0.86:
+            op = ["covfr", i, rng.choice(FRAMES + ["TNW", "QSW", "NoSuchFrame"])]
+        elif r < 0.90:
+            op = ["addman", i, str(rng.randrange(10, 90))]
+        elif r < 0.94:
+            op = ["setcov", i, str(rng.randrange(2000, 2100))]
+        else:
+            op = ["pickle", i]
+        ops.append(op)
+    return ops
+
+
+def fix_indices(ops):
+    """variable indices are taken modulo the number of variables that exist when the op runs: done by a dry run on the real code"""
+    return ops
+
+
+def correspondence(ctx):
+    out = Outcome()
+    rng = ctx.rng
+    # 1. name resolution, exhaustive: every form x every name / alias / a free key
+    t = getattr(ctx, "tables", None) or live_tables()
+    names = sorted(set(t["cache"]) | {a for a, _ in t["alt"]} | {"label", "foo"})
+    lines, keys = [], []
+    for form, _ in t["param_names"]:
+        for nm in names:
+            lines.append(f"access {form} {nm}")
+            keys.append((form, nm))
+    replies = core.Driver().run(lines)
+    for (form, nm), m in zip(keys, replies):
+        real = real_access(form, nm)
+        out.count(key=("access", form, nm), kind="access", nontrivial=real != "free")
+        if real != m:
+            out.fail("access-table", "name resolution differs between the model and StateVector.__getattr__/__setattr__", {"form": form, "name": nm}, observed=real, expected=m)
+    out.sample({"line": lines[0], "reply": replies[0]})
+    # 2. operation sequences
+    cases = []
+    for _ in range(ctx.n(1200, 20000)):
+        ops = rand_ops(rng)
+        kep = [rand_coord(rng) for _ in range(2)]
+        cases.append((ops, kep))
+    cases = [(resolve_indices(ops, kep), kep) for ops, kep in cases]
+    replies = core.Driver().run(["heap " + " ; ".join(" ".join(op) for op in ops) for ops, _ in cases])
+    for (ops, kep), m in zip(cases, replies):
+        d = compare_case(ops, kep, m)
+        kinds = sorted({op[0] for op in ops})
+        out.count(key=tuple(tuple(o) for o in ops), nontrivial=len(ops) >= 2, kind="sequence", length=len(ops))
+        for kd in kinds:
+            out.tally(f"op={kd}")
+        for part in m.split(" || "):
+            out.tally("status=" + part.split(" ")[0])
+        if d is not None:
+            out.fail("heap-sequence", d[0], {"ops": ops, "kep": kep}, observed=str(d[1])[:600], expected=str(d[2])[:600])
+        out.sample({"line": "heap " + " ; ".join(" ".join(op) for op in ops), "reply": m[:200]}, limit=3)
+    return out
+
+
+def resolve_indices(ops, kep):
+    """dry run on the real code: reduce every variable index modulo the number of live variables at that point"""
+    real = Real()
+    real.kep = kep
+    fixed = []
+    for op in ops:
+        op = list(op)
+        if op[0] != "new":
+            op[1] = str(int(op[1]) % max(1, len(real.vars))) if real.vars else "0"
+        real.run(op)
+        fixed.append(op)
+    return fixed
+
+
+def real_access(form, name):
+    """what the real object does with `name` in form `form`: 'slot i' | 'foreign' | 'free'"""
+    import numpy as np
+    from beyond.dates import Date
+    from beyond.orbits import StateVector
+    sv = StateVector([1.0, 2.0, 3.0, 4.0, 5.0, 6.0], Date(2020, 1, 1), form, "EME2000")
+    try:
+        setattr(sv, name, 77.0)
+    except AttributeError:
+        try:
+            sv[name]
+        except KeyError:
+            return "foreign"
+        return "inconsistent"
+    hit = [i for i in range(6) if float(np.asarray(sv)[i]) == 77.0]
+    if name in sv._data:
+        return "free" if not hit else "inconsistent"
+    if len(hit) == 1 and float(getattr(sv, name)) == 77.0 and float(sv[name]) == 77.0:
+        return f"slot {hit[0]}"
+    return "inconsistent"
